@@ -271,8 +271,9 @@ Wait(hint) ==
   /\ pc = "wait" /\ ~LateGiveUp(hint)
   /\ out' = IF cfg.policy = "rec" THEN [ev |-> "Delay", k |-> att, errc |-> oc.errc] ELSE None
   /\ pc' = "att"
+  /\ dpass' = (dpass \/ (ReqT /\ cfg.policy = "rec" /\ cfg.delayMs >= cfg.timeoutMs))   \* the wait itself outlasts the deadline
   /\ hist' = [hist EXCEPT !.causeless = @ \/ ~(att < MaxAtt /\ (IF Custom THEN Answer(oc) ELSE ~oc.ok /\ DefaultRetryable))]
-  /\ UNCHANGED <<cfg, si, mwi, url, meth, bodyk, hop, att, free, sends, live, stale, dpass, cancelled, oc>>
+  /\ UNCHANGED <<cfg, si, mwi, url, meth, bodyk, hop, att, free, sends, live, stale, cancelled, oc>>
 
 \* ---------------------------------------------------------------- leaving the hop; DoRequestFollowRedirects
 MwOut == /\ pc = "mwout"
